@@ -42,16 +42,16 @@ PROPS = {
     "C20": {
         "level": "exploration",
         "units": [
-            R("h23", "c20", "TestC20_URLRoundTrip", (40000, 4), (3000000, 16, 3000)),
+            R("h23", "c20", "TestC20_URLRoundTrip", (40000, 4), (20000000, 16, 10000)),
             R("h23", "c20", "TestC20_Forms", (10000, 1), (300000, 4, 3000)),
-            R("h23", "c20", "TestC20_Helpers", (20000, 2), (1000000, 8, 3000)),
-            R("h26", "c20w", "TestC20_EndToEnd", (800, 4, 600), (5000, 8, 3000)),
+            R("h23", "c20", "TestC20_Helpers", (20000, 2), (6000000, 16, 10000)),
+            R("h26", "c20w", "TestC20_EndToEnd", (800, 4, 600), (200000, 16, 10000)),
         ],
     },
     "C11": {
         "level": "exploration",
         "units": [
-            R("h23", "c11", "TestC11_RoundTrip", (20000, 4), (1000000, 16, 3000)),
+            R("h23", "c11", "TestC11_RoundTrip", (20000, 4), (6000000, 16, 10000)),
             R("h23", "c11", "TestC11_Decode", (100000, 8), (2000000, 16, 3000)),
         ],
         "fuzz": [{"mod": "h23", "pkg": "c11", "target": "FuzzC11_Unmarshal", "secs": 300}],
@@ -59,35 +59,35 @@ PROPS = {
     "C12": {
         "level": "exploration",
         "units": [
-            R("h23", "c12", "TestC12_Crypto", (20000, 4), (1000000, 16, 3000)),
+            R("h23", "c12", "TestC12_Crypto", (20000, 4), (6000000, 16, 10000)),
             E("h23", "c12", "TestC12_CryptoExhaustive", (4,), (16, 3000)),
             R("h23", "c12", "TestC12_Keys", (10000, 2), (300000, 8, 3000)),
-            R("h23", "c12", "TestC12_Index", (4000, 8), (60000, 16, 3000)),
+            R("h23", "c12", "TestC12_Index", (4000, 8), (400000, 16, 10000)),
         ],
     },
     "C17": {
         "level": "exploration",
         "units": [
-            R("h23", "c17", "TestC17_Expand", (100000, 8), (2000000, 16, 3000)),
+            R("h23", "c17", "TestC17_Expand", (100000, 8), (20000000, 16, 10000)),
         ],
     },
     "C18": {
         "level": "exploration",
         "units": [
-            R("h23", "c18", "TestC18_Requests", (20000, 8), (300000, 16, 3000)),
+            R("h23", "c18", "TestC18_Requests", (20000, 8), (4000000, 16, 10000)),
         ],
     },
     "C05": {
         "level": "exploration",
         "units": [
-            R("h23", "c05", "TestC05_SignVerify", (16000, 8), (150000, 16, 3000)),
+            R("h23", "c05", "TestC05_SignVerify", (16000, 8), (3000000, 16, 10000)),
         ],
     },
     "C13": {
         "level": "exploration",
         "units": [
-            R("h23", "c13", "TestC13_RoundTrip", (15000, 8), (500000, 16, 3000)),
-            R("h23", "c13", "TestC13_Decode", (100000, 8), (2000000, 16, 3000)),
+            R("h23", "c13", "TestC13_RoundTrip", (15000, 8), (3000000, 16, 10000)),
+            R("h23", "c13", "TestC13_Decode", (100000, 8), (20000000, 16, 10000)),
         ],
         "fuzz": [{"mod": "h23", "pkg": "c13", "target": "FuzzC13_Decode", "secs": 300}],
     },
@@ -103,8 +103,8 @@ PROPS = {
     "C19": {
         "level": "exploration",
         "units": [
-            R("h23", "c19", "TestC19_FindRoundTrip", (8000, 8), (200000, 16, 3000)),
-            R("h23", "c19", "TestC19_Negotiation", (10000, 4), (200000, 16, 3000)),
+            R("h23", "c19", "TestC19_FindRoundTrip", (8000, 8), (1000000, 16, 10000)),
+            R("h23", "c19", "TestC19_Negotiation", (10000, 4), (2000000, 16, 10000)),
             R("h23", "c19", "TestC19_APIError", (20000, 2), (1000000, 8, 3000)),
         ],
     },
@@ -113,48 +113,48 @@ PROPS = {
         "units": [
             R("h23", "c03", "TestC03_Head", (20000, 8), (500000, 16, 3000)),
             R("h23", "c03", "TestC03_PublisherHead", (3000, 2), (100000, 8, 3000)),
-            R("h26", "c03w", "TestC03_Subscriber", (4000, 8, 1500), (30000, 16, 6000)),
+            R("h26", "c03w", "TestC03_Subscriber", (4000, 8, 1500), (300000, 16, 10000)),
         ],
         "fuzz": [{"mod": "h23", "pkg": "c03", "target": "FuzzC03_Head", "secs": 300}],
     },
     "C01": {
         "level": "exploration",
         "units": [
-            R("h26", "c01", "TestC01_Random", (2500, 12, 1500), (60000, 16, 6000)),
+            R("h26", "c01", "TestC01_Random", (2500, 12, 1500), (240000, 16, 10000)),
             E("h26", "c01", "TestC01_Sweep", (4, 1500), (16, 6000)),
         ],
     },
     "C02": {
         "level": "fault_enumeration",
         "units": [
-            R("h26", "c02", "TestC02_Random", (3000, 8, 1500), (50000, 16, 6000)),
+            R("h26", "c02", "TestC02_Random", (3000, 8, 1500), (300000, 16, 10000)),
             E("h26", "c02", "TestC02_Exhaustive", (8, 1500), (16, 10000)),
         ],
     },
     "C04": {
         "level": "fault_enumeration",
         "units": [
-            R("h26", "c04", "TestC04_Random", (4000, 8, 1500), (30000, 16, 6000)),
+            R("h26", "c04", "TestC04_Random", (4000, 8, 1500), (400000, 16, 10000)),
             E("h26", "c04", "TestC04_Exhaustive", (8, 1500), (16, 10000)),
         ],
     },
     "C06": {
         "level": "exploration",
         "units": [
-            R("h26", "c06", "TestC06_Model", (16000, 8, 1500), (300000, 16, 8000)),
+            R("h26", "c06", "TestC06_Model", (16000, 8, 1500), (4000000, 16, 10000)),
         ],
     },
     "C07": {
         "level": "exploration",
         "units": [
-            R("h26", "c07", "TestC07_Bubble", (4000, 8, 1500), (100000, 16, 8000)),
-            R("h26", "c07", "TestC07_Race", (300, 6, 1500), (6000, 8, 8000), race=True),
+            R("h26", "c07", "TestC07_Bubble", (4000, 8, 1500), (600000, 16, 10000)),
+            R("h26", "c07", "TestC07_Race", (300, 6, 1500), (30000, 8, 10000), race=True),
         ],
     },
     "C09": {
         "level": "exploration",
         "units": [
-            R("h26", "c09", "TestC09_Direct", (3000, 8, 1500), (100000, 16, 8000)),
+            R("h26", "c09", "TestC09_Direct", (3000, 8, 1500), (600000, 16, 10000)),
             E("h26", "c09", "TestC09_LRUExhaustive", (8, 1500), (16, 8000)),
             R("h23", "c09p", "TestC09_Pubsub", (40, 1, 600), (1500, 4, 3000)),
         ],
@@ -162,27 +162,27 @@ PROPS = {
     "C16": {
         "level": "exploration",
         "units": [
-            R("h23", "c16", "TestC16_Histories", (3000, 8, 1500), (200000, 16, 8000)),
-            R("h23", "c16", "TestC16_Topic", (60, 4, 900), (1500, 8, 3000)),
+            R("h23", "c16", "TestC16_Histories", (3000, 8, 1500), (1000000, 16, 10000)),
+            R("h23", "c16", "TestC16_Topic", (60, 4, 900), (6000, 8, 10000)),
         ],
     },
     "C08": {
         "level": "exploration",
         "units": [
-            R("h26", "c08", "TestC08_Scripts", (4000, 8, 400), (150000, 16, 8000)),
+            R("h26", "c08", "TestC08_Scripts", (4000, 8, 400), (300000, 16, 10000)),
         ],
     },
     "C14": {
         "level": "exploration",
         "units": [
-            R("h26", "c14", "TestC14_Scripts", (3000, 8, 400), (100000, 16, 8000)),
-            R("h26", "c14", "TestC14_RegisterCancelStress", (400, 8, 300), (20000, 16, 8000)),
+            R("h26", "c14", "TestC14_Scripts", (3000, 8, 400), (200000, 16, 10000)),
+            R("h26", "c14", "TestC14_RegisterCancelStress", (400, 8, 300), (40000, 16, 10000)),
         ],
     },
     "C15": {
         "level": "exploration",
         "units": [
-            R("h26", "c15", "TestC15_Scripts", (3000, 8, 400), (100000, 16, 8000)),
+            R("h26", "c15", "TestC15_Scripts", (3000, 8, 400), (200000, 16, 10000)),
         ],
     },
 }
